@@ -206,18 +206,20 @@ def run_oracle(stream, seed, n, tier, tag, infile=None):
     return fails, (int(m.group(1)) if m else 0), out
 
 
-def ddmin_prefix(stream, lines, bad_index, tag, budget=60):
+def ddmin_prefix(stream, lines, bad_index, tag, budget=60, keep_first=False):
     """Shrink a stateful op list: keep the failing line last, remove chunks of the prefix while the
     implementation and the model still disagree on the last line."""
-    prefix = lines[:bad_index]
+    head = lines[:1] if keep_first and bad_index > 0 else []
+    prefix = lines[len(head):bad_index]
     last = lines[bad_index]
 
     def fails(pre):
-        res, mism, _ = replay_ops(stream, pre + [last], tag + ".dd")
-        return res is not None and any(("line=%d " % (len(pre) + 1)) in m for m in mism)
+        res, mism, _ = replay_ops(stream, head + pre + [last], tag + ".dd")
+        return res is not None and any(("line=%d " % (len(head) + len(pre) + 1)) in m for m in mism)
 
     if not fails(prefix):
         return lines[:bad_index + 1]
+    lines = None
     n = 2
     tries = 0
     while len(prefix) >= 1 and tries < budget:
@@ -237,7 +239,7 @@ def ddmin_prefix(stream, lines, bad_index, tag, budget=60):
             if chunk == 1:
                 break
             n = min(len(prefix), n * 2)
-    return prefix + [last]
+    return head + prefix + [last]
 
 
 # ---------------------------------------------------------------- known findings
@@ -375,7 +377,21 @@ def main(argv):
                     continue
                 for m in r["mismatches"]:
                     failures.append({"kind": "mismatch", "stream": name, "signature": m[:400], "detail": m,
-                                     "ops": r["ops"], "stateful": s.get("stateful", False), "seed": sd})
+                                     "ops": r["ops"], "stateful": s.get("stateful", False),
+                                     "seq_start": s.get("seq_start"), "seed": sd})
+    # 5b. property oracles on the implementation alone (always run on a directed sample; they are also what
+    #     detects recorded known findings on every run)
+    oracle_stats = []
+    if ok:
+        for os_ in cfg.get("oracles", []):
+            on = cfg.get("oracle_n", {}).get(tier, 4000 if tier == "quick" else 100000)
+            of, ncases, oout = run_oracle(os_, seed, on, tier, tag, None)
+            oracle_stats.append({"oracle": os_, "cases": ncases, "fails": len(of)})
+            if ncases == 0:
+                failures.append({"kind": "tie", "stream": os_, "signature": "oracle-error " + os_, "detail": oout[-2000:]})
+            for l in of:
+                failures.append({"kind": "oracle", "stream": os_, "signature": l[:600], "detail": l})
+    notes["oracles"] = oracle_stats
     # 6. violation search
     violations = []
     known = load_known()
@@ -407,95 +423,132 @@ def cleanup(tag):
                 pass
 
 
+def sig_class(sig):
+    """collapse hex blobs and numbers so that one defect is reported once"""
+    cls = re.sub(r"history=\[.*", "", sig)
+    cls = re.sub(r"x[0-9a-f]*", "x..", cls)
+    cls = re.sub(r"line=\d+", "line=N", cls)
+    cls = re.sub(r"\d+", "N", cls)
+    return cls[:200]
+
+
 def search(prop, cfg, failures, seed, tier, tag, known, known_hits):
     """Violation search: look for a concrete failing input of the *property* on the implementation.
     Returns VIOLATION lines (possibly empty when every failure is a listed known finding)."""
     out_lines = []
     idx = 0
-    # group mismatches per stream; shrink / re-run the first few of each
-    by_stream = {}
+    live = []
     for f in failures:
-        by_stream.setdefault(f["stream"], []).append(f)
-    for stream, fs in by_stream.items():
-        reported = set()
-        # property oracle on the implementation: the mismatching inputs first, then a directed fresh sample
-        oracle_fails = []
-        oracle_note = ""
-        if stream != "-" and stream in cfg.get("oracles", []):
-            infile = None
-            mm = [f for f in fs if f["kind"] == "mismatch"]
-            if mm:
-                infile = os.path.join(WORK, tag + "." + stream + ".oracle-in.ops")
-                with open(infile, "w") as fo:
-                    for f in mm[:200]:
-                        m = re.search(r"op=(.*?) model=", f["detail"])
-                        if m:
-                            fo.write(m.group(1) + "\n")
-            of, ncases, oout = run_oracle(stream, seed, 20000 if tier == "quick" else 200000, tier, tag, infile)
-            oracle_fails = of
-            oracle_note = "oracle cases=%d fails=%d" % (ncases, len(of))
-        elif stream == "-":
-            # a broken proof obligation or tie: run every oracle this property has
-            for os_ in cfg.get("oracles", []):
-                of, ncases, oout = run_oracle(os_, seed, 20000 if tier == "quick" else 200000, tier, tag, None)
-                oracle_fails += of
-                oracle_note += " %s: oracle cases=%d fails=%d;" % (os_, ncases, len(of))
-        for f in fs:
-            sig = f["signature"]
-            # signature class: collapse hex blobs and numbers so that one defect is reported once
-            cls = re.sub(r"x[0-9a-f]{2,}", "x..", sig)
-            cls = re.sub(r"line=\d+", "line=N", cls)
-            cls = re.sub(r"\d{3,}", "N", cls)
-            k = match_known(known, prop, sig + " " + f.get("detail", ""))
-            if k:
-                if (k["id"],) not in [(x[0]["id"],) for x in known_hits]:
-                    known_hits.append((k, sig))
-                continue
-            if cls in reported:
-                continue
-            reported.add(cls)
-            if len(reported) > 8:
-                continue
-            idx += 1
-            rp = os.path.join(ROOT, "replays", "%s-%d-%d.json" % (prop, seed, idx))
-            rec = {"property": prop, "tier": tier, "seed": seed, "stream": stream, "kind": f["kind"],
-                   "signature": sig, "detail": f.get("detail", "")[:6000], "oracle": oracle_note}
-            found_input = False
-            if f["kind"] == "mismatch":
-                m = re.search(r"line=(\d+) op=(.*?) model=(.*?) impl=(.*)$", f["detail"])
+        k = match_known(known, prop, f["signature"] + " " + f.get("detail", ""))
+        if k:
+            if k["id"] not in [x[0]["id"] for x in known_hits]:
+                known_hits.append((k, f["signature"]))
+        else:
+            live.append(f)
+    if not live:
+        return []
+    # targeted oracle run on the inputs of disagreeing lines, per stream
+    targeted = {}
+    for stream in sorted(set(f["stream"] for f in live if f["kind"] == "mismatch")):
+        if stream not in cfg.get("oracles", []):
+            continue
+        mm = [f for f in live if f["kind"] == "mismatch" and f["stream"] == stream]
+        infile = os.path.join(WORK, tag + "." + stream + ".oracle-in.ops")
+        with open(infile, "w") as fo:
+            for f in mm[:200]:
+                if f.get("stateful") and f.get("ops") and os.path.exists(f["ops"]):
+                    m = re.search(r"line=(\d+) ", f["detail"])
+                    if m:
+                        ls = [l.split(" | ")[0].rstrip("\n") for l in open(f["ops"]).readlines()[:int(m.group(1))]]
+                        st0 = 0
+                        if f.get("seq_start"):
+                            for i in range(len(ls) - 1, -1, -1):
+                                if ls[i].startswith(f["seq_start"]):
+                                    st0 = i
+                                    break
+                        for l in ls[st0:]:
+                            fo.write(l + "\n")
+                    break
+                m = re.search(r"op=(.*?) model=", f["detail"])
                 if m:
-                    ln = int(m.group(1))
-                    rec["op"] = m.group(2)
-                    rec["model"] = m.group(3)
-                    rec["impl"] = m.group(4)
-                    if f.get("stateful") and f.get("ops") and os.path.exists(f["ops"]):
-                        alllines = [l.rstrip("\n").split(" | ")[0] for l in open(f["ops"])]
-                        small = ddmin_prefix(stream, alllines, ln - 1, tag)
-                        rec["ops"] = small
-                    else:
-                        rec["ops"] = [m.group(2)]
-                    if m.group(4).startswith("fault"):
-                        found_input = True
-                        rec["verdict"] = "the implementation panics on this input"
+                    fo.write(m.group(1) + "\n")
+        of, ncases, oout = run_oracle(stream, seed, 20000 if tier == "quick" else 200000, tier, tag, infile)
+        of = [l for l in of if not match_known(known, prop, l)]
+        targeted[stream] = (of, "oracle cases=%d unlisted-fails=%d" % (ncases, len(of)))
+    # if a proof obligation or the tie itself broke, every oracle of the property is run wider
+    wide = []
+    if any(f["kind"] in ("obligation", "tie") for f in live):
+        for os_ in cfg.get("oracles", []):
+            of, ncases, oout = run_oracle(os_, seed + 1000, 20000 if tier == "quick" else 200000, tier, tag, None)
+            wide += [l for l in of if not match_known(known, prop, l)]
+    live_oracle = [f["detail"] for f in live if f["kind"] == "oracle"]
+    reported = set()
+    for f in live:
+        sig = f["signature"]
+        cls = f["kind"] + ":" + f["stream"] + ":" + sig_class(sig)
+        if cls in reported:
+            continue
+        reported.add(cls)
+        if len(reported) > 10:
+            continue
+        idx += 1
+        rp = os.path.join(ROOT, "replays", "%s-%d-%d.json" % (prop, seed, idx))
+        rec = {"property": prop, "tier": tier, "seed": seed, "stream": f["stream"], "kind": f["kind"],
+               "signature": sig, "detail": f.get("detail", "")[:8000]}
+        found_input = False
+        if f["kind"] == "oracle":
+            found_input = True
+            rec["verdict"] = "property oracle fails on the implementation: " + f["detail"][:1500]
+            m = re.search(r"history=\[(.*)\]", f["detail"])
+            if m:
+                rec["ops"] = [x.strip() for x in m.group(1).split(";") if x.strip()]
+        elif f["kind"] == "mismatch":
+            m = re.search(r"line=(\d+) op=(.*?) model=(.*?) impl=(.*)$", f["detail"])
+            if m:
+                ln = int(m.group(1))
+                rec["op"], rec["model"], rec["impl"] = m.group(2), m.group(3), m.group(4)
+                if f.get("stateful") and f.get("ops") and os.path.exists(f["ops"]):
+                    alllines = [l.rstrip("\n").split(" | ")[0] for l in open(f["ops"])]
+                    start = 0
+                    ss = f.get("seq_start")
+                    if ss:
+                        for i in range(ln - 1, -1, -1):
+                            if alllines[i].startswith(ss):
+                                start = i
+                                break
+                    rec["ops"] = ddmin_prefix(f["stream"], alllines[start:ln], ln - 1 - start, tag, keep_first=bool(ss))
+                else:
+                    rec["ops"] = [m.group(2)]
+                if m.group(4).startswith("fault"):
+                    found_input = True
+                    rec["verdict"] = "the implementation panics on this input"
             if "lines" in f:
                 rec["ops"] = f["lines"]
-            # oracle verdicts relevant to this failure
-            if oracle_fails:
-                rec["oracle_failures"] = oracle_fails[:10]
+            of, note = targeted.get(f["stream"], ([], ""))
+            rec["oracle"] = note
+            rel = of or live_oracle
+            if rel and not found_input:
                 found_input = True
-                rec.setdefault("verdict", "property oracle fails on the implementation: " + oracle_fails[0][:500])
-            if f["kind"] == "mismatch" and not found_input and cfg.get("mismatch_is_violation", {}).get(stream):
+                rec["oracle_failures"] = rel[:10]
+                rec["verdict"] = "property oracle fails on the implementation: " + rel[0][:1500]
+            if not found_input and cfg.get("mismatch_is_violation", {}).get(f["stream"]):
                 found_input = True
-                rec["verdict"] = cfg["mismatch_is_violation"][stream]
-            if not found_input:
-                rec["no_failing_input_found"] = True
-                rec["unchecked"] = sig
-            with open(rp, "w") as fo:
-                json.dump(rec, fo, indent=1)
-            line = "VIOLATION property=%s replay=%s" % (prop, rp)
-            if not found_input:
-                line += " no-failing-input-found"
-            out_lines.append(line)
+                rec["verdict"] = cfg["mismatch_is_violation"][f["stream"]]
+        else:
+            rel = wide or live_oracle
+            if rel:
+                found_input = True
+                rec["oracle_failures"] = rel[:10]
+                rec["verdict"] = "property oracle fails on the implementation: " + rel[0][:1500]
+        if not found_input:
+            rec["no_failing_input_found"] = True
+            rec["unchecked"] = sig
+        with open(rp, "w") as fo:
+            json.dump(rec, fo, indent=1)
+        line = "VIOLATION property=%s replay=%s" % (prop, rp)
+        if not found_input:
+            line += " no-failing-input-found"
+        out_lines.append(line)
     return out_lines
 
 
